@@ -74,6 +74,11 @@ BrakedownGuardsSize == Fixed
 \* the FIRST one seen; queries at a second point under the same label, and the evaluations claimed there, are
 \* dropped silently), or by (point label, point) so that every query lands in a group?  (defect D16 of DESIGN.md)
 BatchGroupsByLabelAndPoint == Fixed
+\* IPA: `check` refuses a proof whose number of rounds differs from log2(supported degree + 1); does `batch_check` (and
+\* with it `check_combinations`)?  It commits the combined check polynomial with the key, and the MSM silently drops
+\* the coefficients beyond the key's length: a proof with one round more, made with the key padded by identity
+\* elements, verifies for p(z) + z^(d+1) b(z) for any b.  (defect D17 of DESIGN.md)
+IpaBatchGuardsRounds == Fixed
 \* linear codes: setup refuses num_vars = 0                                   (D14, fixed)
 LinCodeRefusesZeroVars == Fixed
 \* KZG-family commit accepts hiding_bound = Some(0) (blinds with a degree-1 polynomial); known finding D13
